@@ -32,6 +32,8 @@ SIG_COST = 'C09:cost:record-model'
 SIG_COST_ATOMIC = 'C09:cost:refusal-not-atomic'
 SIG_COST_REPARSE = 'C09:cost:reparse'
 SIG_COST_RAW_ATOMIC = 'C09:cost:raw-refusal-not-atomic'
+SIG_COST_WHOLE = 'C09:cost:whole-cost-assignment'
+SIG_SEPARATE = 'C09:cost:separate-number-currency-components'
 SIG_TXN = 'C09:txn:pair-model'
 SIG_TXN_REPARSE = 'C09:txn:reparse'
 SIG_TXN_FRAME = 'C09:txn:siblings'
@@ -81,12 +83,15 @@ ODD_PIECES = ['1, USD', 'USD, 1', '1, 2.5', '1 USD, CAD', 'USD, 1 # 2.5 EUR', '1
 
 
 def gen_cost_text(rng) -> tuple[str, bool]:
-    listed = rng.random() >= 0.15
+    listed = rng.random() >= 0.2
     pieces = []
     if listed:
         a = rng.choice(AMOUNT_PIECES)[0]
         if a:
             pieces.append(a)
+    elif rng.random() < 0.5:
+        # number and currency as two components, anywhere among the others (known finding; monitored)
+        pieces += [rng.choice(['12.34', '1', '(1 + 1.5)']), rng.choice(['USD', 'CAD'])]
     else:
         pieces.append(rng.choice(ODD_PIECES))
     if rng.random() < 0.5:
@@ -116,6 +121,10 @@ def gen_cost_ops(rng, n):
     a fresh node, a deep copy of a node of another posting, or that node itself (must be refused)."""
     ops = []
     for _ in range(n):
+        if rng.random() < 0.08:
+            mode = rng.choice(['copy', 'copy', 'built', 'attached'])
+            ops.append(['raw_cost', rng.randrange(3 if mode == 'built' else len(COST_DONORS)), mode])
+            continue
         if rng.random() < 0.3:
             p = rng.choice(list(RAW))
             mode = rng.choice(['none', 'fresh', 'copy', 'attached', 'attached'])
@@ -185,8 +194,41 @@ def raw_node(prop, vc, mode, donor):
     return copy.deepcopy(node) if mode == 'copy' else node
 
 
+# whole-field assignment `cost_spec.raw_cost = cost`: the assigned cost is a deep copy of the cost of a
+# freshly parsed posting ('copy'), that cost itself ('attached': must be refused) or built with from_children
+COST_DONORS = ['{1 USD}', '{{2.5 CAD, 2000-01-01}}', '{7 # 100 AB, "foo", *}', '{}', '{{12.34}}', '{"lot 1", EUR}']
+
+
+def built_cost(idx):
+    """(cost node, the getters it denotes) built with from_children from fresh components."""
+    models, _, _ = impl()
+    if idx % 3 == 0:
+        return models.UnitCost.from_children([models.NumberExpr.from_value(NUMS[6])]), (6, None, None, None, None, False)
+    if idx % 3 == 1:
+        return (models.TotalCost.from_children([models.Amount.from_value(NUMS[2], CURS[1]),
+                                                models.Date.from_value(DATES[0]), models.Asterisk.from_default()]),
+                (None, 2, 1, 0, None, True))
+    return models.UnitCost.from_children([]), (None, None, None, None, None, False)
+
+
+def observe_rawcost(node):
+    models, _, _ = impl()
+    return {'brace': 'Total' if isinstance(node, models.TotalCost) else 'Unit',
+            'comps': [enc_comp(c) for c in node.raw_components]}
+
+
+def is_separate(obs) -> bool:
+    """A bare number and a bare currency as two components, no amount, no compound (known finding)."""
+    kinds = [c[0] for c in obs['comps']]
+    return (kinds.count('KNumber') == 1 and kinds.count('KCurrency') == 1
+            and 'KAmount' not in kinds and 'KCompound' not in kinds)
+
+
 def run_cost_walk(text: str, ops, listed: bool):
-    """Run one assignment sequence on the real CostSpec.  Returns (init observation, steps, failure|None)."""
+    """Run one assignment sequence on the real CostSpec.  Returns (init observation, steps, failure|None).
+    The record-model monitor runs when the initial form is one the property lists (`listed`), when it is the
+    separate number + currency shape, and from any form after an accepted whole-cost assignment."""
+    import copy
     models, parser, _ = impl()
     posting = parser.parse(text, models.Posting)
     donor = parser.parse(DONOR_TEXT, models.Posting)
@@ -195,15 +237,28 @@ def run_cost_walk(text: str, ops, listed: bool):
     init = observe_cost(cs)
     ref = dict(zip(COST_PROPS, init['getters']))
     steps, failure = [], None
-    saw_cur_and_num = False
+    separate_from_parse = is_separate(init)
+    monitored = listed or separate_from_parse
+    saw_cur_and_num = separate_from_parse
     for k, op in enumerate(ops):
         prop, vc = op[0], op[1]
         mode = op[2] if len(op) > 2 else None
         before_text = text_of(posting)
         before_obs = observe_cost(cs)
         res = 0
+        donor2 = donor2_snap = assigned = assigned_getters = None
         try:
-            if mode is not None:
+            if prop == 'raw_cost':
+                if mode == 'built':
+                    node, assigned_getters = built_cost(vc)
+                else:
+                    donor2 = parser.parse('    Assets:Don2  1 GBP ' + COST_DONORS[vc], models.Posting)
+                    assigned_getters = cost_getters(donor2.cost)
+                    node = donor2.cost.raw_cost if mode == 'attached' else copy.deepcopy(donor2.cost.raw_cost)
+                    donor2_snap = (text_of(donor2), observe_cost(donor2.cost))
+                assigned = observe_rawcost(node)
+                cs.raw_cost = node
+            elif mode is not None:
                 setattr(cs, prop, raw_node(prop, vc, mode, donor))
             else:
                 setattr(cs, prop, vc if prop == 'merge' or vc is None else COST_TABLE[prop][vc])
@@ -211,13 +266,14 @@ def run_cost_walk(text: str, ops, listed: bool):
             res = EXN_NUM.get(common.exn_name(e), 8)
         obs = observe_cost(cs)
         obs['res'] = res
+        obs['assigned'] = assigned
         steps.append(obs)
         kinds = [c[0] for c in obs['comps']]
-        saw_cur_and_num = saw_cur_and_num or ('KCurrency' in kinds and 'KNumber' in kinds)
         where = {'kind': 'cost', 'text': text, 'ops': ops[:k + 1], 'listed': listed}
         unchanged = (text_of(posting) == before_text and
                      (obs['brace'], obs['comps']) == (before_obs['brace'], before_obs['comps']))
-        donor_same = (text_of(donor), observe_cost(donor.cost)) == donor_snap
+        donor_same = (text_of(donor), observe_cost(donor.cost)) == donor_snap and \
+            (donor2 is None or (text_of(donor2), observe_cost(donor2.cost)) == donor2_snap)
         if failure:
             continue
         if mode == 'attached':
@@ -227,22 +283,35 @@ def run_cost_walk(text: str, ops, listed: bool):
                 failure = (SIG_COST_RAW_ATOMIC,
                            f'{prop} = <node attached to another posting> on {before_text.strip()!r}: result code {res} '
                            f'(1 = ValueError expected), target now {text_of(posting).strip()!r}, donor '
-                           f'{"unchanged" if donor_same else "changed to " + repr(text_of(donor).strip())}', where)
+                           f'{"unchanged" if donor_same else "changed"}', where)
             continue
-        if not donor_same and mode != 'attached':
-            failure = (SIG_COST_RAW_ATOMIC, f'{prop} ({mode}) changed the donor posting to {text_of(donor).strip()!r}', where)
+        if not donor_same:
+            failure = (SIG_COST_RAW_ATOMIC, f'{prop} ({mode}) changed the donor posting', where)
             continue
-        if not listed:
-            continue
-        ref, want_res = ref_apply(ref, RAW.get(prop, prop), vc)
+        if prop == 'raw_cost':
+            if res == 0:
+                # from here on the group is what the assigned cost denotes, whatever the form was before
+                ref = dict(zip(COST_PROPS, assigned_getters))
+                monitored, separate_from_parse, saw_cur_and_num = True, False, False
+            want_res = 0
+        else:
+            if not monitored:
+                continue
+            ref, want_res = ref_apply(ref, RAW.get(prop, prop), vc)
+        saw_cur_and_num = saw_cur_and_num or ('KCurrency' in kinds and 'KNumber' in kinds)
+        # one stable class for everything that goes wrong on / after the separate-components shape
+        shape_sig = None
+        if saw_cur_and_num:
+            shape_sig = SIG_SEPARATE if separate_from_parse else SIG_D11
         if res != want_res or obs['getters'] != ref_tuple(ref):
-            sig = SIG_D11 if saw_cur_and_num else SIG_COST
-            failure = (sig, f'after {fmt_ops(ops[:k + 1])} on {text.strip()!r}: getters/result '
-                            f'{obs["getters"]}/{res}, record model says {ref_tuple(ref)}/{want_res} '
-                            f'(printed: {text_of(posting).strip()!r})', where)
+            failure = (shape_sig or (SIG_COST_WHOLE if prop == 'raw_cost' else SIG_COST),
+                       f'after {fmt_ops(ops[:k + 1])} on {text.strip()!r}: getters/result '
+                       f'{obs["getters"]}/{res}, record model says {ref_tuple(ref)}/{want_res} '
+                       f'(printed: {text_of(posting).strip()!r})', where)
         elif res != 0 and not unchanged:
-            failure = (SIG_COST_ATOMIC, f'refused {prop} assignment changed the model: {before_text.strip()!r} -> '
-                                        f'{text_of(posting).strip()!r}', where)
+            failure = (shape_sig or SIG_COST_ATOMIC,
+                       f'refused {prop} assignment changed the model: {before_text.strip()!r} -> '
+                       f'{text_of(posting).strip()!r}', where)
         else:
             try:
                 again = parser.parse(text_of(posting), models.Posting)
@@ -251,10 +320,25 @@ def run_cost_walk(text: str, ops, listed: bool):
             except Exception as e:
                 got, sib = f'{type(e).__name__}', True
             if got != obs['getters'] or not sib:
-                failure = (SIG_COST_REPARSE, f'print + parse after {fmt_ops(ops[:k + 1])} on {text.strip()!r} reads '
-                                             f'{got}, the model read {obs["getters"]} (printed: '
-                                             f'{text_of(posting).strip()!r})', where)
+                failure = (shape_sig or SIG_COST_REPARSE,
+                           f'print + parse after {fmt_ops(ops[:k + 1])} on {text.strip()!r} reads '
+                           f'{got}, the model read {obs["getters"]} (printed: {text_of(posting).strip()!r})', where)
     return init, steps, failure
+
+
+# run on every check: the whole-cost assignment between two uses of the value properties, and the
+# separate number + currency forms (known finding C09:cost:separate-number-currency-components)
+P_ = '    Assets:Foo  100.00 GBP '
+DIRECTED = [
+    (P_ + '{1 USD}', True, [['number_per', 6], ['raw_cost', 1, 'copy'], ['number_per', 1], ['currency', None]]),
+    (P_ + '{{USD}}', True, [['currency', 1], ['raw_cost', 0, 'built'], ['number_total', 5], ['label', 1]]),
+    (P_ + '{2000-01-01}', True, [['merge', True], ['raw_cost', 2, 'copy'], ['merge', False], ['date', None],
+                                 ['raw_cost', 4, 'attached'], ['number_per', None]]),
+    (P_ + '{1, CAD}', False, [['label', 1], ['raw_cost', 1, 'built'], ['number_total', None], ['currency', 0]]),
+    (P_ + '{12.34, USD}', False, [['number_total', 5]]),
+    (P_ + '{{USD, 2000-01-01, 12.34}}', False, [['number_per', 5]]),
+    (P_ + '{"foo", 12.34, *, USD}', False, [['raw_currency', 2, 'fresh'], ['currency', None]]),
+]
 
 
 EXN_NUM = {'ValueError': 1, 'IndexError': 2, 'KeyError': 3, 'AssertionError': 4, 'TypeError': 5,
@@ -265,6 +349,9 @@ def fmt_ops(ops):
     out = []
     for op in ops:
         p, vc = op[0], op[1]
+        if p == 'raw_cost':
+            out.append(f'raw_cost = <{op[2]} ' + (f'#{vc}' if op[2] == 'built' else COST_DONORS[vc]) + '>')
+            continue
         tab = COST_TABLE.get(RAW.get(p, p)) or TXN_TABLE.get(p)
         v = vc if (p == 'merge' or vc is None or tab is None) else tab[vc]
         txt = f'{p} = {v!r}' if not isinstance(v, D) else f'{p} = {v}'
@@ -294,15 +381,17 @@ def coq_spec(g):
     return f'(mkspec {oz(g[0])} {oz(g[1])} {oz(g[2])} {oz(g[3])} {oz(g[4])} {coq_bool(g[5])})'
 
 
-def coq_cstep(op):
+def coq_cstep(op, obs=None):
     prop, vc = op[0], op[1]
+    if prop == 'raw_cost':
+        return f'SCost {coq_cost(obs["assigned"])} {coq_bool(op[2] == "attached")}'
     if len(op) > 2:
         return f'SRaw {COQ_ROP[prop]} {oz(vc)} {coq_bool(op[2] == "attached")}'
     return f'SVal ({COQ_OP[prop]} {coq_bool(vc) if prop == "merge" else oz(vc)})'
 
 
 def coq_ccase(fixed, listed, init, ops, steps):
-    body = coq_list(f'({coq_cstep(op)}, mkcobs {coq_z(s["res"])} {coq_cost(s)} {coq_spec(s["getters"])})'
+    body = coq_list(f'({coq_cstep(op, s)}, mkcobs {coq_z(s["res"])} {coq_cost(s)} {coq_spec(s["getters"])})'
                     for op, s in zip(ops, steps))
     fx, late = fixed
     return (f'mkccase {coq_bool(fx)} {coq_bool(late)} {coq_bool(listed)} {coq_cost(init)} '
@@ -350,9 +439,14 @@ def check_cost(ctx: common.Ctx, fixed: bool):
     n_walks = ctx.scale(500, 6000)
     cases, metas = [], []
     reported = set()
-    for _ in range(n_walks):
-        text, listed = gen_cost_text(ctx.rng)
-        ops = gen_cost_ops(ctx.rng, ctx.rng.choice([1, 2, 3, 5, 8] if ctx.quick else [2, 4, 8, 16]))
+    def walks():
+        for t, l, o in DIRECTED:
+            yield t, l, [list(x) for x in o]
+        for _ in range(n_walks):
+            t, l = gen_cost_text(ctx.rng)
+            yield t, l, gen_cost_ops(ctx.rng, ctx.rng.choice([1, 2, 3, 5, 8] if ctx.quick else [2, 4, 8, 16]))
+
+    for text, listed, ops in walks():
         try:
             init, steps, failure = run_cost_walk(text, ops, listed)
         except Exception as e:
@@ -362,7 +456,8 @@ def check_cost(ctx: common.Ctx, fixed: bool):
         ctx.case({'cost': text.strip(), 'ops': fmt_ops(ops[:6])},
                  nontrivial=any(s['res'] for s in steps) or any(s['brace'] != init['brace'] for s in steps)
                  or any([c[0] for c in s['comps']] != [c[0] for c in init['comps']] for s in steps))
-        ctx.dist('cost_init=' + init['brace'] + ':' + ('+'.join(al) or 'none') + (':listed' if listed else ':odd'))
+        ctx.dist('cost_init=' + init['brace'] + ':' + ('+'.join(al) or 'none') +
+                 (':listed' if listed else (':separate' if is_separate(init) else ':odd')))
         ctx.dist(f'cost_init_other_components={len(init["comps"]) - len(al)}')
         for op, s in zip(ops, steps):
             ctx.dist(f'cost_op={op[0]}:{(op[2] if len(op) > 2 else ("None" if op[1] is None else "value"))}')
@@ -833,7 +928,7 @@ def run(ctx: common.Ctx):
                 'the correspondence only; 1-8 (thorough: 2-16) random assignments incl. None and values that must be '
                 'refused; non-trivial = a refusal, a brace flip or a change of component kinds happened. '
                 'txn: headers with 0/1/2 strings, tags, comment, meta, postings x 1-6 payee/narration assignments. '
-                'cost walks mix in 30% raw-level assignments (raw_number_per/raw_number_total/raw_currency) with None, a fresh node, a deep copy of another posting\'s node, or that attached node itself (must be refused, target and donor unchanged). generic: every public required/optional value property of every tree model reachable in the sample '
+                '7 directed walks run first (whole-cost assignment between uses of the value properties; number and currency as separate components); 10% of the random forms have number and currency as separate components (monitored; known finding), 10% other forms outside the quantifier (correspondence only, monitored after a whole-cost assignment); 8% of the steps assign a whole cost to cost_spec.raw_cost (deep copy of a parsed cost, from_children-built, or attached = must be refused). cost walks mix in 30% raw-level assignments (raw_number_per/raw_number_total/raw_currency) with None, a fresh node, a deep copy of another posting\'s node, or that attached node itself (must be refused, target and donor unchanged). generic: every public required/optional value property of every tree model reachable in the sample '
                 'documents x values of its domain incl. None. from_value: random argument records.')
     ctx.assumptions += [
         'RepeatedNodeWrapper.insert/append/pop/__setitem__ on the cost components are the plain list operations '
